@@ -64,7 +64,8 @@ fn('popularity._Popularity.partial_fit', props='C01 C06 C08 C20',
    params=FIT_PARAMS,
    requires=['INV~pop', 'slen(decisions) == slen(rewards)', 'slen(self.arms) > 0'],
    modifies=GMODS + ['self.arm_to_status[*]'],
-   ensures=['INV'] + ACC)
+   ensures=['INV'] + ACC +
+   ['[C01,C06,uniform] implies(%s == 0, %s)' % (TOTAL, forall_arms('val(self.arm_to_expectation, a) == 1 / slen(self.arms)'))])
 
 ALPHA = 'shifted_values(old(self.arm_to_expectation), EPS())'
 E1 = 'mat_at(draw_dirichlet(%s, %s, 1), 0, pos(self.arms, a))' % (S0, ALPHA)
